@@ -225,6 +225,10 @@ def sweep_specs(tier: str = "quick") -> list[dict]:
              {"engine": "DE", "pop": 5, "gens": 1, "lsc": {"kind": "MetaepochLimit", "n": 1}}]
     out.append(dict(base, name="sweep_idle70", levels=quiet, gsc={"kind": "MetaepochLimit", "n": 70}, max_consults=2500))
     out.append(dict(base, name="sweep_idle120", levels=quiet, gsc={"kind": "MetaepochLimit", "n": 120}, max_consults=2500, hibernation=True))
+    # known finding KF-C18-converged, reproduced deterministically: a SHADE population that collapses to one point
+    out.append({"name": "sweep_converged", "seed": 42, "dim": 2, "box": "unit", "fn": "sphere", "maximize": False,
+                "levels": [{"engine": "SHADE", "pop": 6, "gens": 2, "mem": 2}], "gsc": {"kind": "MetaepochLimit", "n": 150},
+                "sprout": {"kind": "simple", "far": 0.1, "limit": 1}, "max_consults": 5000})
     out.append(dict(base, name="sweep_idle_nonroot", levels=quiet, gsc={"kind": "NoActiveNonroot", "n": 58}, max_consults=2500))
     return out
 
